@@ -98,6 +98,12 @@ def find_partial_key_memos(f):
                         and len(n.targets) == 1 and isinstance(n.targets[0], ast.Name) and isinstance(st.value, ast.Name) and n.targets[0].id == st.value.id:
                     answered = True
             if not answered:
+                # `cached = CACHE.get(key); if cached is not None: return cached`
+                got = {n.targets[0].id for n in walk_shallow(fn) if isinstance(n, ast.Assign) and len(n.targets) == 1 and isinstance(n.targets[0], ast.Name)
+                       and isinstance(n.value, ast.Call) and isinstance(n.value.func, ast.Attribute) and n.value.func.attr == "get"
+                       and norm(n.value.func.value) == cache and n.value.args and norm(n.value.args[0]) == norm(t.slice)}
+                answered = any(isinstance(n, ast.Return) and isinstance(n.value, ast.Name) and n.value.id in got for n in walk_shallow(fn))
+            if not answered:
                 continue
             for obj, kattrs in ku.items():
                 if "*" in kattrs or obj in ("self", "cls"):
